@@ -66,3 +66,46 @@ func caseGen() *rapid.Generator[Case] {
 }
 
 func TestProp(t *testing.T) { prop.Rapid(t, caseGen()) }
+
+// TestEnum: every history of up to VERIF_C12_ENUM_LEN operations over a small alphabet: two keys of equal value
+// and distinct type, a third key, set / set-to-nil on a cell, on its by-value copy, on the table and on a column
+// handle, plus copying the cell and growing the table past the ten-column capacity.
+func TestEnum(t *testing.T) {
+	maxLen := h.EnvInt("VERIF_C12_ENUM_LEN", 5)
+	cell := Owner{Kind: "cell"}
+	cp := Owner{Kind: "copy"}
+	al := []Op{
+		{K: "set", Owner: cell, Key: 0}, {K: "set", Owner: cell, Key: 1}, {K: "set", Owner: cell, Key: 8}, {K: "setnil", Owner: cell, Key: 0}, {K: "setnil", Owner: cell, Key: 1},
+		{K: "set", Owner: cp, Key: 0}, {K: "set", Owner: cp, Key: 8}, {K: "setnil", Owner: cp, Key: 0}, {K: "setnil", Owner: cp, Key: 1},
+		{K: "copycell", Owner: cell},
+		{K: "set", Owner: Owner{Kind: "hcol"}, Key: 0}, {K: "setnil", Owner: Owner{Kind: "col", I: 1}, Key: 0},
+		{K: "grow", N: 11},
+		{K: "reset", Owner: cell, Key: 0, Reps: 3},
+	}
+	prefix := []Op{{K: "grow", N: 2}, {K: "handle", Col: 1}}
+	shard, shards := h.Shard()
+	var n int64
+	var rec func(ops []Op)
+	rec = func(ops []Op) {
+		if len(ops) > len(prefix) {
+			n++
+			c := Case{Ops: append([]Op{}, ops...)}
+			ev.R().EvalEnum(nil, true)
+			if v := ev.Guard(func() *ev.Violation { return CheckCase(c) }); v != nil {
+				ev.R().Fail(ID, c, v)
+				t.Fatalf("VIOLATION %s", ID)
+			}
+		}
+		if len(ops) == len(prefix)+maxLen {
+			return
+		}
+		for i, op := range al {
+			if len(ops) == len(prefix) && i%shards != shard {
+				continue
+			}
+			rec(append(ops, op))
+		}
+	}
+	rec(prefix)
+	ev.R().Sub(ev.SubRun{Name: "small-histories", Bound: "every sequence of 1..N operations (N = VERIF_C12_ENUM_LEN) over a 14-operation alphabet (3 keys; cell, its copy, a column handle; copy; growth past 10 columns; re-set)", Cases: n, Exhaustive: true})
+}
